@@ -15,6 +15,17 @@ THEOREMS = ["C15.slice_partition", "C15.split_partial", "C15.haf_header_prefix",
 STYLES = ("rest", "google", "numpydoc")
 PROSE = ["Summary line here.", "Compute the thing quickly.", "Longer paragraph one", "continues on this line.", "Second paragraph.",
          "It handles edge cases well", "and is safe to call twice.", "See the manual for details"]
+# header prose that *mentions* section keywords (legitimate prose; tagged so that findings can be signed narrowly)
+KW_PROSE = {
+    "line-Parameters": "Parameters\nare described in the manual, not here.",
+    "line-Returns": "Returns\nare discussed in the second section.",
+    "mid-Returns:": "Validation of the arguments is lazy. Returns: a 2-tuple, described below.",
+    "mid-Args:": "All of the Args: are validated lazily.",
+    "mid-Raises:": "On bad input it Raises: nothing at all.",
+    "start-Returns-word": "Returns the computed value when it is ready.",
+    "start-Parameters-word": "Parameters given here are forwarded.",
+    "mid-:param": "The role :param is used below in the field list.",
+}
 FOOTERS = ["Notes about usage.", ">>> f(1, 2)", "'x'", "Example follows below", "    indented example line", "References are listed elsewhere"]
 
 
@@ -64,6 +75,10 @@ def gen_doc(r):
     paras = []
     for _ in range(r.randint(1, 3)):
         paras.append("\n".join(r.sample(PROSE, r.randint(1, 2))))
+    kw = None
+    if r.random() < 0.25:
+        kw = r.choice(sorted(KW_PROSE))
+        paras.insert(r.randint(1, len(paras)), KW_PROSE[kw])
     header = "\n\n".join(paras)
     header_lines = [l for l in header.split("\n") if l.strip()]
     footer = "\n".join(r.sample(FOOTERS, r.randint(1, 3))) if r.random() < 0.5 else ""
@@ -73,7 +88,7 @@ def gen_doc(r):
     if ind:
         d = "\n" + "\n".join((" " * ind + l) if l else l for l in d.split("\n")) + r.choice(["", "\n" + " " * ind])
     return {"doc": d, "style": style, "indent": ind, "header_lines": header_lines, "footer_lines": footer_lines, "has_footer": bool(footer),
-            "has_return": bool(ir.get("returns")), "nparams": len(ir["params"]), "names": list(ir["params"])}
+            "has_return": bool(ir.get("returns")), "nparams": len(ir["params"]), "names": list(ir["params"]), "kw": kw}
 
 
 def impl_split(case):
@@ -225,7 +240,7 @@ def run(chk: core.Check) -> int:
         key = "%s/indent%d/%s" % (g["style"], g["indent"], "footer" if g["has_footer"] else "nofooter")
         dist[key] = dist.get(key, 0) + 1
         chk.count(("doc", g["doc"]), True)
-        base_sig = {"style": g["style"], "indented": g["indent"] > 0, "has_footer": g["has_footer"]}
+        base_sig = {"style": g["style"], "indented": g["indent"] > 0, "has_footer": g["has_footer"], "kw": g["kw"]}
         if sp and not sp.get("timeout") and not sp.get("skipped"):
             if "raises" in sp["haf"]:
                 chk.failure({"kind": "split-raises", **base_sig, "exc": sp["haf"]["raises"]}, "parse_docstring_into_header_args_footer raises %s" % sp["haf"]["raises"],
@@ -239,7 +254,8 @@ def run(chk: core.Check) -> int:
                 else:
                     miss = in_order(g["header_lines"], h) if sp.get("idx") and isinstance(sp["idx"], list) and sp["idx"][0] > -1 else None
                     if miss is not None:
-                        chk.failure({"kind": "header-line-not-in-header-part", **base_sig}, "header line %r is not inside the header part" % miss, {"fn": "split", "doc": g["doc"]})
+                        chk.failure(({"kind": "header-line-not-in-header-part", **base_sig} if g["kw"] is None else
+                                     {"kind": "header-line-not-in-header-part", "kw": g["kw"], "style": g["style"], "indented": g["indent"] > 0}), "header line %r is not inside the header part" % miss, {"fn": "split", "doc": g["doc"]})
         if cv and not cv.get("timeout") and not cv.get("skipped") and "fields" in cv:
             for tgt in STYLES + tuple("fn_" + t for t in STYLES):
                 out = cv["outs"].get(tgt)
@@ -247,12 +263,13 @@ def run(chk: core.Check) -> int:
                     continue
                 miss = in_order(g["header_lines"], out)
                 if miss is not None:
-                    chk.failure({"kind": "header-line-lost", **base_sig, "target": tgt}, "converting %s → %s loses header line %r" % (g["style"], tgt, miss),
+                    chk.failure(({"kind": "header-line-lost", **base_sig, "target": tgt} if g["kw"] is None else
+                                 {"kind": "header-line-lost", "kw": g["kw"], "style": g["style"], "path": "fn" if tgt.startswith("fn_") else "doc", "indented": g["indent"] > 0}), "converting %s → %s loses header line %r" % (g["style"], tgt, miss),
                                 {"fn": "convert", "gen": g, "target": tgt})
             for n, k, v in cv["fields"]:
                 for l in g["header_lines"] + g["footer_lines"]:
                     if l.strip() and l.strip() in v:
-                        chk.failure({"kind": "prose-absorbed", "style": g["style"], "field": k, "entry": "return" if n == "return_type" else "param",
+                        chk.failure({"kind": "prose-absorbed", "style": g["style"], "field": k, "entry": "return" if n == "return_type" else "param", "kw": g["kw"],
                                      "prose": "footer" if l.strip() in [x.strip() for x in g["footer_lines"]] else "header"},
                                     "prose line %r absorbed into %s.%s = %r" % (l.strip(), n, k, v[:120]), {"fn": "convert", "gen": g})
                         break
